@@ -248,7 +248,17 @@ def outcome(res):
     if 'ok' in res:
         return ('ok', from_json(res['ok']))
     if 'err' in res:
-        return ('err', ERR_CLASS.get(res['err'], 'other'), res['err'], res.get('f'))
+        cls = ERR_CLASS.get(res['err'], 'other')
+        if res['err'] == 'Other' and res.get('name'):
+            # a variant this harness does not know (ExecutionError is non_exhaustive): classified by its name
+            n = res['name']
+            for pat, c in (('Overflow', 'overflow'), ('ByZero', 'div_by_zero'), ('NoSuchKey', 'no_such_key'), ('Undeclared', 'undeclared'),
+                           ('NotComparable', 'not_comparable')):
+                if pat in n:
+                    cls = c
+                    break
+            return ('err', cls, 'Other:' + n, res.get('f'))
+        return ('err', cls, res['err'], res.get('f'))
     if 'panic' in res:
         return ('panic', res['panic'], res.get('file', ''))
     if 'abort' in res:
